@@ -159,6 +159,10 @@ def oracle(case):
     kw = {"sim_mean": m}
     if case["ini"] is not None:
         kw["sim_ini"] = case["ini"]
+    # earlier, unrelated floating-point work of the caller (it leaves the
+    # processor's "invalid operation" status flag raised)
+    _ = float("inf") - float("inf")
+    _ = float("nan") < 0.0
     y = armodels.armodel_sim(params, arr(e), **kw)
     if y.shape != e.shape:
         raise Violation(f"sim output shape {y.shape} != {e.shape}")
